@@ -1,5 +1,6 @@
 """C06 - JSON/XDL decoding is total, memory-safe, chunk-independent and JSON-conformant
-(spec/JsonText.tla, JsonTextGen.tla, JsonTextXdl.tla, XdlSM.tla + XdlSMRefine/XdlSMRefineXdl/XdlSMExplore, Trace_JsonTextDec.tla)."""
+(spec/JsonText.tla, JsonTextGen.tla, JsonTextXdl.tla, XdlSM.tla + XdlSMRefine/XdlSMRefineXdl/XdlSMExplore, XdlParserApi.tla
+(the parser object: parse*/value/reset/decode), Trace_JsonTextDec.tla, Trace_XdlParserApi.tla)."""
 import concurrent.futures as cf
 import os
 import re
@@ -7,20 +8,26 @@ import subprocess
 import vlib
 
 META = {
-    "engine": "JsonText.tla,JsonTextGen.tla,JsonTextXdl.tla,XdlSM.tla,XdlSMRefine.tla,XdlSMRefineXdl.tla,XdlSMExplore.tla,Trace_JsonTextDec.tla",
+    "engine": "JsonText.tla,JsonTextGen.tla,JsonTextXdl.tla,XdlSM.tla,XdlSMRefine.tla,XdlSMRefineXdl.tla,XdlSMExplore.tla,XdlParserApi.tla,Trace_JsonTextDec.tla,Trace_XdlParserApi.tla",
     "technique": "TLC: (1) grammar generator of JSON texts (pushdown system with every lexical variant) checked against a strict "
                  "RFC 8259 recognizer written as recursive TLA+ operators; (2) statement-level model of the XdlParser state "
                  "machine checked to refine generator and recognizer (no stack underflow, chunk boundaries invisible); every "
                  "transition of (1), of the XDL dialect generator and of the machine's own state graph is replayed on the real "
                  "decoder whole, in all 2-cuts, byte by byte and in random cuts under ASan/LSan; recorded decodes of mutated "
-                 "documents and random bytes are classified by TLC with the recognizer",
+                 "documents and random bytes are classified by TLC with the recognizer; (3) the parser *object* as a state machine "
+                 "over its calls parse(chunk)* / value() / reset() / decode(text) (XdlParserApi.tla): its state must be a function "
+                 "of the text fed since construction or the last reset - TLC proves it for the repaired reset() and refutes the "
+                 "pinned one; every call sequence up to the bound is run on a real object and compared with a new parser (R), "
+                 "random call sequences are recorded and validated by TLC (V)",
     "design_ref": "DESIGN.md section 6, C05/C06",
     "level_text": "TLC enumerates every derivation prefix of the JSON grammar (and of the XDL dialect) up to the configured bounds "
                   "with all lexical variants, proves generator = recognizer on them, proves that the transcribed parser design "
                   "refines them, and each generated text is decoded by the real code whole and in every 2-chunk cut (plus "
                   "byte-wise and random cuts, and every proper prefix of each document) with the value compared to the "
                   "specification's; number tokens are compared as exact IEEE bit patterns computed in TLA+ (small dyadic "
-                  "tokens) or by a bignum half-ulp test evaluated by TLC on the decoded bits (recorded traces).",
+                  "tokens) or by a bignum half-ulp test evaluated by TLC on the decoded bits (recorded traces). XdlParserApi: all "
+                  "call sequences of length <= 3 (quick) / 4 (thorough) over 29 chunks, 5 decode texts and reset - ApiRefines, "
+                  "ApiValue, ApiNoUnderflow, ResetIsNew, ApiSticky proved on the design and each sequence replayed on the real object.",
     "level_note": "Open finding NestingBeyondStack: documents nested beyond ~10^4-10^5 levels exhaust the call stack in the recursive "
                   "Var destructor (probes deeper than 5000 levels are skipped while it is open). Bounded (constants in spec/MC_JsonTextGen_*.cfg, MC_JsonTextXdl_*.cfg, MC_XdlSM*_*.cfg); beyond the bounds only "
                   "the recorded random/mutated inputs apply. Totality and memory safety are observed (ASan/LSan, time limit) on the "
@@ -54,9 +61,10 @@ def _gen(ctx, spec, cfg, out, timeout, need=(), **kw):
     return r
 
 
+API_ACTS = ("Parse", "Decode", "Reset")
 GEN_ACTS = ("Number", "Literal", "BeginStr", "StrChar", "EndStr", "Colon", "Begin", "End", "Comma", "Ws")
 DEEP_ACTS = ("DeepBegin", "DeepEnd", "Number", "Literal", "BeginStr", "EndStr", "Probe")
-XDL_ACTS = ("Scalar", "BeginArr", "BeginObj", "Key", "End", "Sep", "Ws")
+XDL_ACTS = ("Scalar", "BeginArr", "BeginObj", "Key", "End", "Sep", "Ws", "WsEnd")
 SM_STATES = ("NUMBER", "INT", "STRING", "PROPERTY", "IDENTIFIER", "NUMBER_E", "NUMBER_ES", "NUMBER_EV", "NUMBER_DOT", "MINUS",
              "WAIT_SEP", "WAIT_EQUAL", "WAIT_VALUE", "WAIT_PROPERTY", "WAIT_OBJ", "QPROPERTY", "ESCAPE", "ERR", "UNICODECHAR",
              "WAIT_COMMA_OR_PROPERTY", "WAIT_COMMA_OR_VALUE")
@@ -74,8 +82,29 @@ def run(ctx):
         return ctx.model(spec, "MC_%s_%s" % (spec, tier), timeout=ctx.pick(600, 3000), xss="512m", xmx="6g", must_cover=False,
                          workers=max(2, vlib.NCPU // 2))
 
-    with cf.ThreadPoolExecutor(2) as ex:
-        list(ex.map(refine, ["XdlSMRefine", "XdlSMRefineXdl"]))
+    def api_defect(item):
+        dcfg, inv = item
+        r = vlib.tlc("XdlParserApi", dcfg, timeout=600, xss="512m", xmx="4g", workers=2)
+        if r.violated() != inv:
+            raise vlib.HarnessError("XdlParserApi/%s: TLC did not refute the pinned reset() design (%s)\n%s" % (dcfg, r.violated(), r.tail()))
+
+    def flush_defect():
+        r = vlib.tlc("XdlSMRefineXdl", "MC_XdlSMRefineXdl_defect", timeout=600, xss="512m", xmx="4g", workers=2)
+        if r.violated() != "SMAll":
+            raise vlib.HarnessError("XdlSMRefineXdl/defect: TLC did not refute the blank flush of decode() (%s)\n%s" % (r.violated(), r.tail()))
+
+    with cf.ThreadPoolExecutor(5) as ex:
+        jobs = [ex.submit(refine, s) for s in ("XdlSMRefine", "XdlSMRefineXdl")]
+        # the pinned reset() (keeps open containers / pending names / comment flag / \\u accumulator) must be refuted by TLC itself
+        jobs += [ex.submit(api_defect, d) for d in (("MC_XdlParserApi_defect", "ApiNoUnderflow"), ("MC_XdlParserApi_defect2", "ApiValue"))]
+        # ... and so must the pinned end-of-text flush parse(" ") (a line comment up to the end of the text is never closed)
+        jobs.append(ex.submit(flush_defect))
+        for j in jobs:
+            j.result()
+    ctx.engines.append("XdlParserApi/MC_XdlParserApi_defect*: reset() that keeps the open containers / names / comment flag refuted by TLC "
+                       "(ApiNoUnderflow, ApiValue) as expected")
+    ctx.engines.append("XdlSMRefineXdl/MC_XdlSMRefineXdl_defect: decode() that flushes with a blank refuted by TLC (SMAll: a document "
+                       "ending in a line comment without newline has no value) as expected")
     # the pinned design (a '/' inside a quoted key opens a comment) must be refuted by TLC itself
     r = vlib.tlc("XdlSMRefine", "MC_XdlSMRefine_defect", timeout=600, xss="512m", xmx="4g")
     if r.violated() != "SMAgree":
@@ -94,11 +123,23 @@ def run(ctx):
         _gen(ctx, spec, cfg, cases, ctx.pick(600, 3000), need=need, **kw)
         ctx.replay(rep, cases, label="R/" + cfg, timeout=ctx.pick(900, 5400))
         os.unlink(cases)
+    # -- the parser object's API (parse* / value / reset / decode on one object): the pinned reset() is refuted by TLC, the
+    #    repaired design is explored exhaustively to MaxCalls calls and every call sequence is run on a real object
+    arep = vlib.build_harness(lib, "c06_api_replay", ["c06_api_replay.cpp"])
+    cases = os.path.join(ctx.tmp, "api.cases")
+    _gen(ctx, "XdlParserApi", "MC_XdlParserApi_" + tier, cases, ctx.pick(600, 3000), need=API_ACTS, workers=4)
+    ctx.replay(arep, cases, label="R/MC_XdlParserApi_" + tier, timeout=ctx.pick(900, 5400))
+    os.unlink(cases)
     ctx.exhaustive = True
     # -- V: mutated documents and random bytes through the real decoder, classified by the recognizer --------------------
     rec = vlib.build_harness(lib, "c06_record", ["c06_record.cpp"])
     files = ctx.record(rec, ctx.pick(8, 32), ctx.pick(700, 6000), "V/JsonTextDec")
     ctx.validate_traces("Trace_JsonTextDec", "Trace_JsonTextDec", files, label="V/JsonTextDec", timeout=ctx.pick(600, 3000),
+                        xss="512m", xmx="4g")
+    # -- V: one real parser object through random parse / reset / decode / new calls; TLC keeps the account of the fed text --
+    arec = vlib.build_harness(lib, "c06_api_record", ["c06_api_record.cpp"])
+    afiles = ctx.record(arec, ctx.pick(4, 16), ctx.pick(500, 4000), "V/XdlParserApi")
+    ctx.validate_traces("Trace_XdlParserApi", "Trace_XdlParserApi", afiles, label="V/XdlParserApi", timeout=ctx.pick(600, 3000),
                         xss="512m", xmx="4g")
     ctx.assumptions += [
         "exhaustive within the constants of the MC_*_%s.cfg files; beyond them only recorded random/mutated inputs apply" % tier,
@@ -143,7 +184,12 @@ def _replay_recorded(path, lib, hname, hsrcs, trace_spec):
 def replay(path):
     lib = vlib.build_lib("asan")
     if os.path.basename(path).startswith("rec-") or path.endswith(".ndjson"):
+        if "XdlParserApi" in os.path.basename(path):
+            return _replay_recorded(path, lib, "c06_api_record", ["c06_api_record.cpp"], "Trace_XdlParserApi")
         return _replay_recorded(path, lib, "c06_record", ["c06_record.cpp"], "Trace_JsonTextDec")
-    rep = vlib.build_harness(lib, "c06_replay", HS)
+    if '"calls"' in open(path, errors="replace").read(4096):      # a call sequence of spec/XdlParserApi.tla
+        rep = vlib.build_harness(lib, "c06_api_replay", ["c06_api_replay.cpp"])
+    else:
+        rep = vlib.build_harness(lib, "c06_replay", HS)
     r = subprocess.run([rep, "--single", path], env=vlib.run_env())
     return 1 if r.returncode == 1 else (0 if r.returncode == 0 else 2)
